@@ -25,3 +25,19 @@ package rawdb
 // database value and the key; PruneState never re-reads a key it deleted).
 //@ trusted func DeleteConsensusStateHeight(db kaidb.KeyValueWriter, height uint64) (err error)
 //@ trusted func DeleteConsensusValidatorsInfo(db kaidb.KeyValueWriter, hash common.Hash) (err error)
+
+// ---------------------------------------------------------------- C14: what a validator-set record holds
+// Ghost view of a key-value writer (a database, or a batch on top of one): for each validator-set
+// record key, the proposer priority stored for member i. Writing a record replaces that key's entry
+// and no other. Keys are identified by recKey(hash), an injective numbering of hashes.
+//@ spec func recKey(h common.Hash) mathint
+//@ axiom recKeyInjective(a common.Hash, b common.Hash)
+//@   ensures recKey(a) == recKey(b) ==> a == b
+//@   pattern recKey(a); recKey(b)
+//@ ghost field kaidb.KeyValueWriter.vprio gmap[mathint]gmap[mathint]mathint
+//@ trusted func WriteConsensusValidatorsInfo(db kaidb.KeyValueWriter, hash common.Hash, valInfo kstate.ValidatorsInfo) (err error)
+//@   modifies db.vprio
+//@   ensures forall k mathint :: k != recKey(hash) ==> db.vprio[k] == old(db.vprio)[k]
+//@   ensures valInfo.ValidatorSet != nil ==> (forall i int :: 0 <= i && i < len(valInfo.ValidatorSet.Validators) ==> db.vprio[recKey(hash)][i] == valInfo.ValidatorSet.Validators[i].ProposerPriority)
+//@ trusted func WriteConsensusStateHeight(db kaidb.KeyValueWriter, height uint64, state kstate.State) (err error)
+//@ trusted func WriteConsensusParamsInfo(db kaidb.KeyValueWriter, hash common.Hash, paramsInfo kstate.ConsensusParamsInfo) (err error)
